@@ -172,7 +172,7 @@ Definition set_arg (a : arg) (r : rec) : rec :=
   match a with
   | ASev s => set_sev s r
   | AEid id (Some n) => set_eid id (until_nul n) r      (* nostd::string_view{arg.name_.get()} : a C string *)
-  | AEid id None => r                                    (* strlen(nullptr): see arg_crashes *)
+  | AEid id None => set_eid id [] r                      (* name_ == nullptr: the empty name (fix be9979e) *)
   | ABody _ v => set_body v r
   | ACtx t s f => set_fl f (set_tid t (set_sid s r))    (* SetSpanId, SetTraceId, SetTraceFlags *)
   | ASid s => set_sid s r
@@ -183,8 +183,6 @@ Definition set_arg (a : arg) (r : rec) : rec :=
   | AObs z => set_obs (Some z) r
   | AEidRaw id n => set_eid id n r
   end.
-(* EventId{id} keeps name_ == nullptr and the trait builds a string_view from it (open finding F29) *)
-Definition arg_crashes (a : arg) : bool := match a with AEid _ None => true | _ => false end.
 (* only the LogRecord interface offers these two *)
 Definition arg_direct_only (a : arg) : bool := match a with AObs _ | AEidRaw _ _ => true | _ => false end.
 
@@ -350,11 +348,11 @@ Definition log_args (form : nat) (sev id : Z) (name : bytes) (msg : aval) (kvs :
   | 0 => Some [ASev sev; ABody BSv msg]                                              (* Log(sev, message) *)
   | 1 => Some [ASev sev; ABody BSv msg; AAttrs HKvi kvs]                             (* Log(sev, format, attrs) *)
   | 2 => Some [ASev sev; AEid id (Some name); ABody BSv msg; AAttrs HKvi kvs]        (* Log(sev, const EventId&, ...) *)
-  | 3 => Some [ASev sev; AEid id None; ABody BSv msg; AAttrs HKvi kvs]               (* Log(sev, int64_t, ...) : EventId{id} *)
+  | 3 => Some [ASev sev; AEid id None; ABody BSv msg; AAttrs HKvi kvs]               (* Log(sev, int64_t, ...) : EventId{id}, no name *)
   | _ => None
   end.
 
-Inductive outcome := Ok (st : lstate) | Crash | Ill.
+Inductive outcome := Ok (st : lstate) | Ill.
 
 Definition with_stack (st : lstate) (nodes : heap) (t : nat) (s : stack) (toks : list (nat * ctx * bool)) : lstate :=
   mk_l (s_mem st) nodes (set_nth t s (s_stks st)) toks (s_procs st) (s_slots st) (s_exp st) (s_out st).
@@ -378,14 +376,11 @@ Definition emit_with_args (c : cfg) (st : lstate) (l : nat) (sl : slot) (args : 
   match sl with
   | RNull => Ok st                                          (* if (!log_record) return;  - before any setter *)
   | RNoop =>
-      if existsb arg_crashes args then Crash
-      else if logger_enabled c l then Ill                   (* static_cast<Recordable*> of a NoopLogRecord *)
+      if logger_enabled c l then Ill                        (* static_cast<Recordable*> of a NoopLogRecord *)
       else Ok st
   | RMulti ch =>
-      if existsb arg_crashes args then Crash
-      else
-        let ch' := map_children (fun r => fold_left (fun r a => set_arg a r) args r) ch in
-        if logger_enabled c l then Ok (emit_children c st l ch') else Ok st
+      let ch' := map_children (fun r => fold_left (fun r a => set_arg a r) args r) ch in
+      if logger_enabled c l then Ok (emit_children c st l ch') else Ok st
   end.
 
 (* logger l ->EmitLogRecord(args...) : CreateLogRecord() on the calling thread, then the above *)
@@ -423,10 +418,9 @@ Definition lstep (c : cfg) (st : lstate) (o : lop) : outcome :=
       if negb (arg_ok (s_mem st) a) then Ill else
       match nth_error (s_slots st) r with
       | Some RNull | None => Ill                              (* a setter through a null pointer *)
-      | Some RNoop => if arg_crashes a then Crash else Ok (with_out st [])
+      | Some RNoop => Ok (with_out st [])
       | Some (RMulti ch) =>
-          if arg_crashes a then Crash
-          else Ok (with_out (with_slots st (set_nth r (RMulti (map_children (set_arg a) ch)) (s_slots st))) [])
+          Ok (with_out (with_slots st (set_nth r (RMulti (map_children (set_arg a) ch)) (s_slots st))) [])
       end
   | LEmit t l r =>
       if negb (Nat.ltb t nthreads && Nat.ltb l (length (c_loggers c))) then Ill else
@@ -561,6 +555,5 @@ Definition run_case (k : case) : list tok :=
   if negb (mem_ok (k_mem k)) then [tag "ILL"] else
   match lrun (k_cfg k) (lstate0 (k_mem k) (k_procs k)) (k_ops k) with
   | Ok st => s_out st ++ dump (k_cfg k) st
-  | Crash => [tag "CRASH"]
   | Ill => [tag "ILL"]
   end.
